@@ -45,6 +45,7 @@ type Solver struct {
 	sinceRst  int
 	Restarts  int
 	rssLimit  int64 // kB
+	dead      bool  // the process was killed by the watchdog; a fresh one is started at the next query
 }
 
 type nameKey struct {
@@ -101,6 +102,9 @@ func (s *Solver) start() error {
 }
 
 func (s *Solver) raw(line string) {
+	if s.dead {
+		return // the assertion stack is kept in s.stack; it is replayed into a fresh process
+	}
 	if s.log != nil {
 		fmt.Fprintln(s.log, line)
 	}
@@ -141,17 +145,20 @@ func (s *Solver) rssKB() int64 {
 // same assertion stack. Called between queries only.
 func (s *Solver) maybeRestart() {
 	s.sinceRst++
-	if s.sinceRst%100 != 0 || strings.Contains(s.bin, "cvc5") {
-		return
+	if !s.dead {
+		if s.sinceRst%100 != 0 || strings.Contains(s.bin, "cvc5") {
+			return
+		}
+		if s.rssKB() < s.rssLimit {
+			return
+		}
+		s.raw("(exit)")
+		s.in.Flush()
+		s.inRaw.Close()
+		s.cmd.Process.Kill()
+		s.cmd.Wait()
 	}
-	if s.rssKB() < s.rssLimit {
-		return
-	}
-	s.raw("(exit)")
-	s.in.Flush()
-	s.inRaw.Close()
-	s.cmd.Process.Kill()
-	s.cmd.Wait()
+	s.dead = false
 	if err := s.start(); err != nil {
 		panic(execErr{"solver restart failed: " + err.Error()})
 	}
@@ -245,10 +252,15 @@ func (s *Solver) readLine() string {
 		}
 		return strings.TrimSpace(r.l)
 	case <-time.After(limit):
-		// the solver ignores its own time limit on this query: give up on this harness run
+		// the solver ignores its own time limit on this query: this path is inconclusive; the
+		// process is replaced (assertion stack replayed) when the next query is asked
 		s.cmd.Process.Kill()
+		s.inRaw.Close()
+		s.cmd.Wait()
+		s.dead = true
 		s.Hung = true
-		panic(execErr{fmt.Sprintf("solver did not answer within %s (its own limit is %d ms): run abandoned", limit, s.timeoutMs)})
+		s.Unknown++
+		panic(execErr{fmt.Sprintf("solver did not answer within %s (its own limit is %d ms): path abandoned", limit, s.timeoutMs)})
 	}
 }
 
@@ -270,6 +282,19 @@ func (s *Solver) Check(extra ...*Term) string {
 	s.maybeRestart()
 	t0 := time.Now()
 	s.Queries++
+	if len(extra) > 0 {
+		// if the solver is abandoned in the middle of this query, the scope opened for the
+		// extra assertions must not stay on the recorded stack
+		depth := len(s.stack)
+		defer func() {
+			if r := recover(); r != nil {
+				if s.dead && len(s.stack) > depth {
+					s.stack = s.stack[:depth]
+				}
+				panic(r)
+			}
+		}()
+	}
 	if len(extra) > 0 {
 		s.send("(push 1)")
 		for _, e := range extra {
@@ -479,8 +504,7 @@ func parseBV(v string) (uint64, bool) {
 }
 
 func (s *Solver) Close() {
-	if s.Hung {
-		s.cmd.Wait()
+	if s.dead {
 		return
 	}
 	s.send("(exit)")
